@@ -39,7 +39,7 @@ _LEAVES = ("return", "raise", "xbreak", "xreturn")
 MUTATORS = {"append", "extend", "insert", "update", "pop", "popitem", "clear", "setdefault", "remove", "add", "discard", "sort", "reverse",
             "__setitem__", "__delitem__"}
 PURE_BUILTINS = {"isinstance", "issubclass", "getattr", "hasattr", "type", "len", "id", "str", "repr", "bool", "callable", "list", "tuple",
-                 "set", "dict", "frozenset", "sorted", "any", "all", "iter", "next", "enumerate", "zip", "int", "float"}
+                 "set", "dict", "frozenset", "sorted", "any", "all", "iter", "next", "enumerate", "zip", "int", "float", "super"}
 _COMPS = (ast.ListComp, ast.SetComp, ast.DictComp, ast.GeneratorExp)
 
 
@@ -214,12 +214,15 @@ class _State:
 
 
 class _Frame:
-    __slots__ = ("fn", "fid", "stack", "mutated", "gen")
+    __slots__ = ("fn", "fid", "stack", "mutated", "gen", "dyn")
 
-    def __init__(self, fn, fid, stack, gen=None):
+    def __init__(self, fn, fid, stack, gen=None, mutated=None, dyn=None):
         self.fn, self.fid, self.stack = fn, fid, stack
+        # class of the object `self` stands for (the analysed method's class, kept through super() / self.hook() calls:
+        # an overridable hook called by a base-class template is the override of that class)
+        self.dyn = dyn if dyn is not None else (fn.cls if fn.kind not in ("staticmethod", "classmethod") else None)
         self.gen = gen  # (for statement, frame of the loop) when this frame runs a generator function the loop iterates
-        self.mutated = mutated_names(fn.node)
+        self.mutated = mutated if mutated is not None else mutated_names(fn.node)
 
 
 class Sym:
@@ -242,7 +245,7 @@ class Sym:
 
     # ------------------------------------------------------------------ public
     def run(self) -> list:
-        fr = _Frame(self.fn, 0, (self.fn,))
+        fr = _Frame(self.fn, 0, (self.fn,), mutated=self._mutated(self.fn))
         st = _State()
         a = self.fn.node.args
         env = {x.arg: ast.Name(id=x.arg, ctx=ast.Load()) for x in a.posonlyargs + a.args + a.kwonlyargs}
@@ -540,7 +543,7 @@ class Sym:
         elif yields:
             return None
         a = target.node.args
-        if a.vararg or a.kwarg or any(isinstance(x, ast.Starred) for x in call.args) or any(k.arg is None for k in call.keywords):
+        if a.vararg or any(isinstance(x, ast.Starred) for x in call.args) or (any(k.arg is None for k in call.keywords) and not a.kwarg):
             return None
         for d in target.node.decorator_list:
             if unparse(d) not in ("staticmethod", "classmethod"):
@@ -574,10 +577,11 @@ class Sym:
         if isinstance(f, ast.Attribute) and isinstance(f.value, ast.Name) and (f.value.id in ("self", "cls", fn.self_name or "") or f.value.id not in st.envs[fr.fid]):
             recv = f.value.id
             if fn.cls is not None and recv in ("self", "cls", fn.self_name or ""):
-                m = fn.cls.lookup(name)
+                cls0 = fr.dyn if fr.dyn is not None and recv != "cls" and fn.kind != "classmethod" else fn.cls
+                m = cls0.lookup(name)
                 if m and m[1] == "method":
                     target = m[2]
-                    for sub in self.p.subclasses(fn.cls, strict=True):
+                    for sub in self.p.subclasses(cls0, strict=True):
                         if sub.own(name) is not None:
                             return None
             else:
@@ -591,6 +595,73 @@ class Sym:
             if r and r[0] == "func":
                 target = r[1]
         return self._checks(target, call, fr, gen)
+
+    def _callee_super(self, call, fr):
+        """`super().m(..)`: m of the next class after the current one in the MRO of the object's class."""
+        f = call.func
+        if not (isinstance(f, ast.Attribute) and isinstance(f.value, ast.Call) and isinstance(f.value.func, ast.Name) and f.value.func.id == "super"
+                and not f.value.args and not f.value.keywords):
+            return None
+        fn = fr.fn
+        if fn.cls is None or fn.kind != "method" or f.attr.startswith("__") or not (self._expandable_name(f.attr) or f.attr == fn.name):
+            return None
+        mro = [c for c in (fr.dyn or fn.cls).mro if not isinstance(c, str)]
+        if fn.cls not in mro:
+            return None
+        for c in mro[mro.index(fn.cls) + 1:]:
+            o = c.own(f.attr)
+            if o is not None:
+                return self._checks(o[1], call, fr) if o[0] == "method" and o[1].kind == "method" else None
+        return None
+
+    # ------------------------------------------------------------------ locals mutated through a helper
+    def _static_callee(self, call, fn):
+        """Package function a call resolves to from the text alone (self._h / cls._h / Class._h / h), expandable or not."""
+        f = call.func
+        name = f.attr if isinstance(f, ast.Attribute) else getattr(f, "id", None)
+        if not self._expandable_name(name):
+            return None, False
+        if isinstance(f, ast.Attribute) and isinstance(f.value, ast.Name):
+            recv = f.value.id
+            if fn.cls is not None and recv in ("self", "cls", fn.self_name or ""):
+                m = fn.cls.lookup(name)
+                return (m[2], True) if m and m[1] == "method" else (None, False)
+            r = self.p.resolve_name(fn.module, recv)
+            if r and r[0] == "class":
+                m = r[1].lookup(name)
+                return (m[2], m[2].kind == "classmethod") if m and m[1] == "method" else (None, False)
+        elif isinstance(f, ast.Name):
+            r = self.p.resolve_name(fn.module, name)
+            if r and r[0] == "func":
+                return r[1], False
+        return None, False
+
+    def _mutated(self, fn, _stack=()):
+        """Locals / parameters of fn mutated in place: directly, or by being handed to a package helper that mutates the
+        corresponding parameter (so that a dictionary filled by helpers keeps a name of its own)."""
+        cache = self.__dict__.setdefault("_mut_cache", {})
+        key = id(fn.node)
+        if key in cache:
+            return cache[key]
+        out = set(mutated_names(fn.node))
+        if key not in _stack and len(_stack) < 4:
+            for c in ast.walk(fn.node):
+                if not isinstance(c, ast.Call) or not any(isinstance(a, ast.Name) for a in list(c.args) + [k.value for k in c.keywords]):
+                    continue
+                callee, bound = self._static_callee(c, fn)
+                if callee is None or callee.node is fn.node:
+                    continue
+                a = callee.node.args
+                params = [x.arg for x in a.posonlyargs + a.args]
+                if callee.kind in ("method", "classmethod") and bound and params:
+                    params = params[1:]
+                theirs = self._mutated(callee, _stack + (key,))
+                for prm, arg in list(zip(params, c.args)) + [(k.arg, k.value) for k in c.keywords if k.arg]:
+                    if isinstance(arg, ast.Name) and prm in theirs:
+                        out.add(arg.id)
+        if not _stack:
+            cache[key] = out
+        return out
 
     # ------------------------------------------------------------------ record types (NamedTuple / dataclass)
     def _record(self, call):
@@ -645,12 +716,18 @@ class Sym:
             ckws = [ast.keyword(arg=k.arg, value=v) for k, v in zip(kws, vs[1 + len(args):])]
             func = ast.Attribute(value=f0, attr=e.func.attr, ctx=ast.Load()) if isinstance(e.func, ast.Attribute) else f0
             if callee is not None:
-                yield from self._inline(e, callee, f0, cargs, ckws, s1, fr)
+                on_self = isinstance(e.func, ast.Attribute) and isinstance(e.func.value, ast.Name) and e.func.value.id == (fr.fn.self_name or "self") and fr.fn.kind == "method"
+                yield from self._inline(e, callee, f0, cargs, ckws, s1, fr, dyn=fr.dyn if on_self else None)
+                continue
+            sup = self._callee_super(e, fr)
+            if sup is not None:
+                me = self._lookup(fr.fn.self_name, s1, fr) or ast.Name(id=fr.fn.self_name, ctx=ast.Load())
+                yield from self._inline(e, sup, me, cargs, ckws, s1, fr, bound=True, dyn=fr.dyn)
                 continue
             if isinstance(e.func, ast.Attribute):
                 on = self._callee_on(e, f0, fr)
                 if on is not None:
-                    yield from self._inline(e, on, f0, cargs, ckws, s1, fr, bound=True)
+                    yield from self._inline(e, on, f0, cargs, ckws, s1, fr, bound=True, dyn=self._class_of(f0))
                     continue
             elif isinstance(func, ast.Attribute):
                 # a bound method taken from a table / kept in a local: `handler = self._m; handler(x)`
@@ -683,8 +760,20 @@ class Sym:
             if not (callee.kind == "method" and recv_is_class):
                 vals = [recv] + vals
         binding = dict(zip(params, vals))
+        extra, star = [], []
         for k in ckws:
-            binding[k.arg] = k.value
+            if k.arg is None:
+                star.append(k.value)
+            elif k.arg in params:
+                binding[k.arg] = k.value
+            else:
+                extra.append(k)
+        if a.kwarg:
+            # **kwargs of the callee: what the call passes on (`**kwargs`) plus the keywords no parameter takes
+            binding[a.kwarg.arg] = star[0] if len(star) == 1 and not extra else ast.Dict(
+                keys=[None] * len(star) + [ast.Constant(value=k.arg) for k in extra], values=star + [k.value for k in extra])
+        elif star or extra:
+            return None
         for prm in params:
             if prm not in binding:
                 if prm not in defaults:
@@ -692,7 +781,7 @@ class Sym:
                 binding[prm] = copy.deepcopy(defaults[prm])
         return binding
 
-    def _inline(self, e, callee, recv, cargs, ckws, st, fr, bound=False):
+    def _inline(self, e, callee, recv, cargs, ckws, st, fr, bound=False, dyn=None):
         binding = self._bind_call(e, callee, recv, cargs, ckws, fr, bound)
         if binding is None:
             # cannot bind: leave the call as it is
@@ -702,7 +791,7 @@ class Sym:
             yield st, c
             return
         st.nfid += 1
-        nfr = _Frame(callee, st.nfid, fr.stack + (callee,))
+        nfr = _Frame(callee, st.nfid, fr.stack + (callee,), mutated=self._mutated(callee), dyn=dyn)
         st.envs[nfr.fid] = binding
         for s1, sig, val in self._block(self._body(callee), st, nfr):
             s1.envs.pop(nfr.fid, None)
@@ -1105,7 +1194,7 @@ class Sym:
                 raise AnalysisError(f"{self.fn.qualname}: call of generator {callee.qualname} at line {e.lineno} does not match its signature")
             self._havoc(names, s1, fr, s)
             s1.nfid += 1
-            nfr = _Frame(callee, s1.nfid, fr.stack + (callee,), gen=(s, fr))
+            nfr = _Frame(callee, s1.nfid, fr.stack + (callee,), gen=(s, fr), mutated=self._mutated(callee))
             s1.envs[nfr.fid] = binding
             for s2, sig, val in self._block(self._body(callee), s1, nfr):
                 s2.envs.pop(nfr.fid, None)
